@@ -1,6 +1,6 @@
 (* C07 property theorems. Statements only; proofs are `exact lemma`. Third-party compressors appear as universally
    quantified functions with their round-trip behaviour as premises. All theorems are for every input (no bound). *)
-From Coq Require Import ZArith List Bool.
+From Coq Require Import ZArith List Bool Lia.
 From OG Require Import C07.Model C07.ModelRows C07.ModelFile C07.ModelPreAgg C07.ProofsPreAgg C07.ProofsFile C07.ProofsRows C07.ProofsBase C07.ProofsS8 C07.ProofsInt C07.ProofsBool C07.ProofsFloat C07.ProofsString C07.ProofsSeg.
 Import ListNotations.
 Open Scope Z_scope.
@@ -336,3 +336,36 @@ Example C07_ex_preagg_layouts :
   fl_layout_g fl_zero_repaired (fun n => n <? size_float) true (mkStat 0 0 1000 2000 0 2) = LVlc false 1 1 /\
   fl_layout_g fl_zero_repaired (fun n => n <? size_float) true (mkStat M63 M63 1000 2000 0 2) = LVlc true 1 1.
 Proof. vm_compute. repeat split. eexists; eexists; reflexivity. Qed.
+
+(* ---- file-level time ranges: trailer and meta-index entries ----
+   MsBuilder.WriteData folds every chunk's (min, max) time into the trailer, writeToDisk folds the chunks of one
+   meta-index block into its entry. For any non-empty chunk sequence the recorded range is the hull: it contains every
+   chunk's range, whatever the order in which later chunks extend it on either side, and both ends are attained. *)
+Theorem C07_trailer_range_is_hull : forall chunks, chunks <> [] ->
+  exists lo hi, tr_fold chunks = (len chunks, (lo, hi)) /\
+  (forall c, In c chunks -> lo <= fst c /\ snd c <= hi) /\
+  (exists c, In c chunks /\ fst c = lo) /\ (exists c, In c chunks /\ snd c = hi).
+Proof. exact tr_fold_hull. Qed.
+Print Assumptions C07_trailer_range_is_hull.
+
+(* a file of time-sorted series, each cut into non-empty segments in any way: every query range that holds the time of
+   a stored row overlaps the recorded range - file.ContainsByTime / ContainsValue (Trailer.ContainsTime) and
+   tsspFileReader.MetaIndex (the same test on a meta-index entry) never deny a stored row; the range is tight *)
+Theorem C07_file_range_never_denies : forall (file : list (list (list Z))),
+  file <> [] ->
+  Forall (fun segs => segs <> [] /\ Forall (fun s => s <> []) segs /\ Sorted.Sorted Z.le (concat segs)) file ->
+  exists lo hi, tr_fold (file_chunk_ranges file) = (len file, (lo, hi)) /\
+  (forall segs t q, In segs file -> In t (concat segs) -> fst q <= t <= snd q -> overlaps q lo hi = true) /\
+  (exists segs, In segs file /\ hd 0 (concat segs) = lo) /\ (exists segs, In segs file /\ last (concat segs) 0 = hi).
+Proof. exact file_range_never_denies. Qed.
+Print Assumptions C07_file_range_never_denies.
+
+(* three series in id order; the second extends the range to the left, the third to the right *)
+Example C07_ex_file_ranges :
+  let file := [[[50; 60]; [70]]; [[10; 20]]; [[55]; [90; 95]]] in
+  Forall (fun segs => segs <> [] /\ Forall (fun s => s <> []) segs /\ Sorted.Sorted Z.le (concat segs)) file /\
+  file_chunk_ranges file = [(50, 70); (10, 20); (55, 95)] /\ tr_fold (file_chunk_ranges file) = (3, (10, 95)).
+Proof.
+  cbv zeta. split; [|split; reflexivity].
+  repeat constructor; try discriminate; cbn; lia.
+Qed.
